@@ -347,6 +347,51 @@ def _expr_chains(expr):
     return out
 
 
+def _is_const_value(v):
+    return isinstance(v, (ast.Constant, ast.JoinedStr)) or (isinstance(v, (ast.List, ast.Tuple, ast.Dict, ast.Set)) and not getattr(v, 'elts', getattr(v, 'keys', None)))
+
+
+def _informative_ifexp(e):
+    if isinstance(e, ast.IfExp):
+        return any(_is_const_value(x) or _informative_ifexp(x) for x in (e.body, e.orelse))
+    return False
+
+
+def _ifexp_arms(facts, e):
+    """[(facts with the outcome of the tests, leaf value)] for the arms of a (nested) conditional expression; infeasible arms dropped"""
+    if not isinstance(e, ast.IfExp):
+        return [(facts, e)]
+    out = []
+    for pol, arm in ((True, e.body), (False, e.orelse)):
+        f = facts.assume_deep(e.test, pol)
+        if f is not None:
+            out.extend(_ifexp_arms(f, arm))
+    return out
+
+
+def _value_facts(facts2, target, value):
+    """what a plain assignment `target = value` says about target (the facts about the old value are already dropped)"""
+    none_test = ast.Compare(left=target, ops=[ast.Is()], comparators=[ast.Constant(value=None)])
+    f_ = None
+    if isinstance(value, ast.Constant) and isinstance(value.value, bool):
+        # constant propagation of boolean flags: `flag = True` / `flag = False` is a fact about `flag`
+        f_ = facts2.assume(target, value.value)
+    elif isinstance(value, (ast.BoolOp, ast.UnaryOp, ast.Compare)) and _pure_bool(value):
+        # `t = <and/or/not/comparison over names>` : t stands for that expression until one of them is assigned again
+        return facts2.define(target.id, value)
+    elif isinstance(value, ast.Constant) and value.value is None:
+        f_ = facts2.assume(none_test, True)
+    if f_ is not None:
+        facts2 = f_
+    if isinstance(value, (ast.Constant, ast.JoinedStr, ast.List, ast.Tuple, ast.Dict, ast.Set, ast.ListComp, ast.DictComp, ast.SetComp)) \
+            and not (isinstance(value, ast.Constant) and value.value is None):
+        # `name = <constant / display other than None>` : `name is None` is false
+        f_ = facts2.assume(none_test, False)
+        if f_ is not None:
+            facts2 = f_
+    return facts2
+
+
 def _pure_bool(e):
     """and / or / not / comparisons over names, attributes and constants only (no calls, no subscripts): safe to re-read later"""
     for n in ast.walk(e):
@@ -541,30 +586,23 @@ class Flow(object):
                 outs = [outs]
             if use_facts and node.ast is not None and node.kind in ('stmt', 'with_enter', 'for_iter', 'return', 'handler'):
                 facts2 = facts.kill(_killed_by(node.ast if node.kind != 'handler' else None))
-                # constant propagation of boolean flags: `flag = True` / `flag = False` is a fact about `flag`
                 a = node.ast
-                if node.kind == 'stmt' and isinstance(a, ast.Assign) and len(a.targets) == 1 and isinstance(a.targets[0], ast.Name) \
-                        and isinstance(a.value, ast.Constant) and isinstance(a.value.value, bool):
-                    f_ = facts2.assume(a.targets[0], a.value.value)
-                    if f_ is not None:
-                        facts2 = f_
-                # `t = <and/or/not/comparison over names>` : t stands for that expression until one of them is assigned again
-                if node.kind == 'stmt' and isinstance(a, ast.Assign) and len(a.targets) == 1 and isinstance(a.targets[0], ast.Name) \
-                        and isinstance(a.value, (ast.BoolOp, ast.UnaryOp, ast.Compare)) and _pure_bool(a.value):
-                    facts2 = facts2.define(a.targets[0].id, a.value)
-                # `name = None` is a fact about `name is None`
-                if node.kind == 'stmt' and isinstance(a, ast.Assign) and len(a.targets) == 1 and isinstance(a.targets[0], ast.Name) \
-                        and isinstance(a.value, ast.Constant) and a.value.value is None:
-                    f_ = facts2.assume(ast.Compare(left=a.targets[0], ops=[ast.Is()], comparators=[ast.Constant(value=None)]), True)
-                    if f_ is not None:
-                        facts2 = f_
+                split = None
+                if node.kind == 'stmt' and isinstance(a, ast.Assign) and len(a.targets) == 1 and isinstance(a.targets[0], ast.Name):
+                    if isinstance(a.value, ast.IfExp) and _informative_ifexp(a.value) and \
+                            not any(isinstance(x, ast.Name) and x.id == a.targets[0].id for x in ast.walk(a.value)):
+                        # `x = A if c else B` with a constant arm: one state per arm, each with the test's outcome and what the arm says about x
+                        split = [_value_facts(f_, a.targets[0], v_) for f_, v_ in _ifexp_arms(facts2, a.value)]
+                    else:
+                        facts2 = _value_facts(facts2, a.targets[0], a.value)
             else:
                 facts2 = facts
+                split = None
             if volatile is not None and use_facts and node.ast is not None and (
                     node.kind == 'with_enter' or (node.kind == 'stmt' and isinstance(node.ast, ast.Expr) and isinstance(node.ast.value, ast.Call)
                                                   and isinstance(node.ast.value.func, ast.Attribute) and node.ast.value.func.attr == 'acquire')):
                 facts2 = Facts(frozenset((k, p) for k, p in facts2.items if not volatile(k)))
-            for c in outs:
+            for c, facts2 in [(c_, f_) for c_ in outs for f_ in (split if (use_facts and node.ast is not None and node.kind == 'stmt' and split) else [facts2])]:
                 if c is None:
                     continue
                 for s, lab in node.succ:
